@@ -56,7 +56,11 @@ var (
 )
 
 // Universe interns composite types for one module.
-type Universe struct{ m map[string]*Type }
+type Universe struct {
+	m map[string]*Type
+	// NoMatCx2: matrices with 2 rows are replaced by 3/4-row matrices (gate "type.matCx2")
+	NoMatCx2 bool
+}
 
 func NewUniverse() *Universe { return &Universe{m: map[string]*Type{}} }
 
@@ -71,6 +75,7 @@ func (u *Universe) Vec(n int, e *Type) *Type {
 	return u.intern(&Type{Kind: KVec, N: n, Elem: e, key: fmt.Sprintf("vec%d<%s>", n, e.key)})
 }
 func (u *Universe) Mat(c, r int, e *Type) *Type {
+
 	return u.intern(&Type{Kind: KMat, N: c, R: r, Elem: e, key: fmt.Sprintf("mat%dx%d<%s>", c, r, e.key)})
 }
 func (u *Universe) Array(e *Type, n int) *Type {
